@@ -36,6 +36,7 @@ type Contract struct {
 	Props    []string
 	Pure     bool
 	Opaque   bool // pure but body not revealed (uninterpreted)
+	CallPreAssumed bool // requires of callees are assumed (and reported) at the call sites inside this function
 	Trusted  bool // contract assumed, body not verified
 	NoPanic  bool
 	Lemma    bool
@@ -143,7 +144,7 @@ type ConstCheck struct {
 }
 
 var clauseKW = map[string]bool{"props": true, "pure": true, "opaque": true, "trusted": true, "nopanic": true, "lemma": true, "arith": true,
-	"requires": true, "ensures": true, "assume": true, "loop": true, "guard": true, "assigns": true, "reads": true, "preserves": true, "decreases": true, "note": true, "cover": true}
+	"requires": true, "ensures": true, "assume": true, "loop": true, "guard": true, "assigns": true, "reads": true, "preserves": true, "decreases": true, "note": true, "cover": true, "callpre": true}
 
 var reLabel = regexp.MustCompile(`^\[([A-Za-z0-9_.-]+)\]\s*`)
 
@@ -292,6 +293,11 @@ func (cs *ContractSet) ParseContractFile(path, pkgPath string) error {
 				for _, p := range strings.FieldsFunc(rest, func(r rune) bool { return r == ' ' || r == ',' }) {
 					cur.Props = append(cur.Props, p)
 				}
+			case "callpre":
+				if strings.TrimSpace(rest) != "assumed" {
+					return fmt.Errorf("%s: expected `callpre assumed`", where)
+				}
+				cur.CallPreAssumed = true
 			case "pure":
 				cur.Pure = true
 			case "opaque":
